@@ -1,14 +1,150 @@
 /-
-C01 — evaluator property; theorems over LiquerModel/Eval.lean and LiquerModel/Ref.lean.
+C01 — Pipeline semantics: evaluation = the reference interpretation.
+Theorems over LiquerModel/Eval.lean (`evalQ`, `evalText`) and LiquerModel/Ref.lean (`refQ`, `refText`);
+helper lemmas in LiquerProofs/Lemmas/Eval*.lean.  All statements are for every query, world, fuel.
+
+Hypotheses that appear below:
+  * `Sound env w`     — every data-bearing cache entry (visible or hidden) is, up to `status`, the successful,
+                        non-volatile, caching-enabled reference value of its key text (Lemmas/EvalDefs.lean);
+  * `Closed env C T`  — `C` (queries) and `T` (texts) are closed under what an evaluation descends into;
+  * `CanonOK env q`   — "`q` means what its canonical text means" (C02's print-parse round trip), used only at
+                        cache hits (`CanonHit`) and at `store` (`CanonStore`).
 -/
 import LiquerModel.Ref
 import LiquerProofs.Inst.Vocab
+import LiquerProofs.Lemmas.EvalExact
+import LiquerProofs.Lemmas.EvalExample
 
 namespace Liquer.C01
 
 /-- the regenerated command signature table satisfies the side conditions the evaluator theorems assume -/
 theorem inst_registry : Inst.registryOK Gen.registry = true := Inst.registry_ok
 
+/-! ### no cache: evaluator = reference interpretation, exactly -/
+
+/-- With the global cache disabled (`NoCache()`), `evaluate(query)` returns exactly the outcome of the reference
+interpretation (same fuel), executes exactly its calls in its order, and the cache stays `NoCache` — with or
+without an input value, extra parameters, nested links and sub-evaluations. -/
+theorem eval_is_ref_nocache (env : Env) (n : Nat) (w : World) (q : Query) (raw : Str) (extra : Extra)
+    (input : Option Val) (uc : Bool) (hN : w.NoCache) :
+    (evalQ env n w q raw extra input uc).2 = (refQ env n q raw extra input).1 ∧
+    (evalQ env n w q raw extra input uc).1.calls = w.calls ++ (refQ env n q raw extra input).2 ∧
+    (evalQ env n w q raw extra input uc).1.NoCache :=
+  let h := (exact env n).q w q raw extra input uc hN
+  ⟨h.2.1, h.2.2, h.1⟩
+
+theorem evalText_is_ref_nocache (env : Env) (n : Nat) (w : World) (t : Str) (ug : Bool) (hN : w.NoCache) :
+    (evalText env n w t ug).2 = (refText env n t).1 ∧
+    (evalText env n w t ug).1.calls = w.calls ++ (refText env n t).2 ∧
+    (evalText env n w t ug).1.NoCache :=
+  let h := (exact env n).text w t ug hN
+  ⟨h.2.1, h.2.2, h.1⟩
+
+/-- the world that models `set_cache(NoCache())` -/
+theorem nocache_world : ({ enabled := false } : World).NoCache :=
+  ⟨rfl, fun k => by simp [World.dataAt, World.entry]⟩
+
+-- non-vacuity: `one/add-~X~/one~E` under NoCache runs `one`, `one` (the link), `add`, and returns 2
+open Ex in
+example : ({ enabled := false } : World).NoCache ∧
+    (evalQ env0 9 { enabled := false } qLink (s "one/add-~X~/one~E") .none none true).1.calls =
+      [s "root.one(N;)", s "root.one(N;)", s "root.add(I1;I1)"] ∧
+    (refQ env0 9 qLink (s "one/add-~X~/one~E") .none none).2 =
+      [s "root.one(N;)", s "root.one(N;)", s "root.add(I1;I1)"] ∧
+    (evalQ env0 9 { enabled := false } qLink (s "one/add-~X~/one~E") .none none true).2.obs.map (·.value) =
+      some (some (.int 2)) :=
+  ⟨nocache_world, by decide +kernel, by decide +kernel, by decide +kernel⟩
+
+/-! ### any sound cache (in particular the empty one): same outcome up to `status`, calls a subsequence -/
+
+/-- R-eval for `evaluate(query)`: in a sound world the outcome is (up to `status`) the reference outcome for
+some fuel, the world stays sound, and the executed calls are a subsequence of the reference calls.
+(`uc = false` models the `NoCache` an injected input value / `evaluate_on` selects.) -/
+theorem eval_is_ref {env : Env} {C : Query → Prop} {T : Str → Prop} (hC : Closed env C T)
+    (hcanon : ∀ q, C q → CanonOK env q) (n : Nat) (w : World) (q : Query) (raw : Str) (extra : Extra)
+    (input : Option Val) (uc : Bool) (hS : Sound env w) (hCq : C q) (huc : uc = true → input = none) :
+    Sound env (evalQ env n w q raw extra input uc).1 ∧
+    ((evalQ env n w q raw extra input uc).2 ≠ .unmodelled →
+      ∃ m c', (evalQ env n w q raw extra input uc).1.calls = w.calls ++ c' ∧
+        c'.Sublist (refQ env m q raw extra input).2 ∧
+        Outcome.sim (evalQ env n w q raw extra input uc).2 (refQ env m q raw extra input).1) :=
+  evalQ_refines hC hcanon n w q raw extra input uc hS hCq huc
+
+theorem evalText_is_ref {env : Env} {C : Query → Prop} {T : Str → Prop} (hC : Closed env C T)
+    (hcanon : ∀ q, C q → CanonOK env q) (n : Nat) (w : World) (t : Str) (ug : Bool) (hS : Sound env w) (hT : T t) :
+    Sound env (evalText env n w t ug).1 ∧
+    ((evalText env n w t ug).2 ≠ .unmodelled →
+      ∃ m c', (evalText env n w t ug).1.calls = w.calls ++ c' ∧ c'.Sublist (refText env m t).2 ∧
+        Outcome.sim (evalText env n w t ug).2 (refText env m t).1) :=
+  evalText_refines hC hcanon n w t ug hS hT
+
+/-- the empty cache is sound -/
+theorem empty_sound (env : Env) : Sound env {} := Sound.empty env
+
+/-- with an empty real cache -/
+theorem eval_is_ref_empty {env : Env} {C : Query → Prop} {T : Str → Prop} (hC : Closed env C T)
+    (hcanon : ∀ q, C q → CanonOK env q) (n : Nat) (q : Query) (raw : Str) (extra : Extra)
+    (input : Option Val) (uc : Bool) (hCq : C q) (huc : uc = true → input = none)
+    (hne : (evalQ env n {} q raw extra input uc).2 ≠ .unmodelled) :
+    ∃ m c', (evalQ env n {} q raw extra input uc).1.calls = c' ∧
+      c'.Sublist (refQ env m q raw extra input).2 ∧
+      Outcome.sim (evalQ env n {} q raw extra input uc).2 (refQ env m q raw extra input).1 := by
+  obtain ⟨m, c', h1, h2, h3⟩ := (eval_is_ref hC hcanon n {} q raw extra input uc (Sound.empty env) hCq huc).2 hne
+  exact ⟨m, c', by simpa using h1, h2, h3⟩
+
+/-- for EVERY query at once, given the canonical-text hypothesis for every query -/
+theorem eval_is_ref_all {env : Env} (hcanon : ∀ q, CanonOK env q) (n : Nat) (w : World) (q : Query) (raw : Str)
+    (extra : Extra) (input : Option Val) (uc : Bool) (hS : Sound env w) (huc : uc = true → input = none) :
+    Sound env (evalQ env n w q raw extra input uc).1 ∧
+    ((evalQ env n w q raw extra input uc).2 ≠ .unmodelled →
+      ∃ m c', (evalQ env n w q raw extra input uc).1.calls = w.calls ++ c' ∧
+        c'.Sublist (refQ env m q raw extra input).2 ∧
+        Outcome.sim (evalQ env n w q raw extra input uc).2 (refQ env m q raw extra input).1) :=
+  eval_is_ref (Closed.univ env) (fun q _ => hcanon q) n w q raw extra input uc hS trivial huc
+
+/-- value-or-failure, final variables, last command, volatility, file name and extension of the returned
+state are those of *every* modelled run of the reference interpretation -/
+theorem eval_obs_is_ref {env : Env} {C : Query → Prop} {T : Str → Prop} (hC : Closed env C T)
+    (hcanon : ∀ q, C q → CanonOK env q) (n m : Nat) (w : World) (q : Query) (raw : Str) (extra : Extra)
+    (input : Option Val) (uc : Bool) (hS : Sound env w) (hCq : C q) (huc : uc = true → input = none)
+    (he : (evalQ env n w q raw extra input uc).2 ≠ .unmodelled)
+    (hr : (refQ env m q raw extra input).1 ≠ .unmodelled) :
+    (evalQ env n w q raw extra input uc).2.obs = (refQ env m q raw extra input).1.obs :=
+  evalQ_obs hC hcanon n m w q raw extra input uc hS hCq huc he hr
+
+/-- the reference meaning does not depend on the fuel: two modelled runs agree (outcome and calls) -/
+theorem ref_fuel_irrelevant (env : Env) {m m' : Nat} (q : Query) (raw : Str) (extra : Extra) (input : Option Val)
+    (h : (refQ env m q raw extra input).1 ≠ .unmodelled) (h' : (refQ env m' q raw extra input).1 ≠ .unmodelled) :
+    refQ env m q raw extra input = refQ env m' q raw extra input :=
+  refQ_det env q raw extra input h h'
+
+/-- a successful reference result does not depend on the text the query was typed as, nor on empty extra
+parameters (and non-empty extra parameters make a successful result volatile) -/
+theorem ref_spelling_irrelevant (env : Env) (raw' : Str) (n : Nat) (q : Query) (raw : Str) (extra : Extra)
+    (input : Option Val) (st : EState) (h : (refQ env n q raw extra input).1 = .st st) (hs : st.isError = false)
+    (hx : extra.isEmpty = true ∨ st.volatile = false) :
+    refQ env n q raw' .none input = refQ env n q raw extra input :=
+  refQ_good_indep env raw' n q raw extra input st h hs hx
+
+-- non-vacuity of the hypotheses (the family of Lemmas/EvalExample.lean, which contains a link argument),
+-- and the conclusion exercised: from the empty cache, `one/add-~X~/one~E` runs the three reference calls;
+-- afterwards `one/add-2` hits the cached `one` and runs `add` only (a strict subsequence of the reference calls)
+open Ex in
+example : Closed env0 C0 T0 ∧ (∀ q, C0 q → CanonOK env0 q) ∧ Sound env0 {} ∧ C0 qLink ∧ C0 qOneAdd :=
+  ⟨closed0, canon0, Sound.empty _, Or.inl rfl, Or.inr (Or.inl rfl)⟩
+open Ex in
+example :
+    let w1 := (evalQ env0 9 {} qLink (s "one/add-~X~/one~E") .none none true).1
+    w1.calls = [s "root.one(N;)", s "root.one(N;)", s "root.add(I1;I1)"] ∧
+    (evalQ env0 9 { w1 with calls := [] } qOneAdd (s "one/add-2") .none none true).1.calls = [s "root.add(I1;I2)"] ∧
+    (refQ env0 9 qOneAdd (s "one/add-2") .none none).2 = [s "root.one(N;)", s "root.add(I1;I2)"] := by
+  decide +kernel
+
+/-- the hypothesis C02 is to discharge for the queries of interest: every parsed query means what its
+canonical text means, fuel by fuel (`CanonOK.of_same` turns it into `CanonOK`) -/
+def canon_all_statement (env : Env) : Prop := ∀ t q, parse env.dec t = some q → CanonSame env q
+
 end Liquer.C01
 
--- OBLIGATIONS: Liquer.C01.inst_registry
+-- OBLIGATIONS: Liquer.C01.inst_registry Liquer.C01.eval_is_ref_nocache Liquer.C01.evalText_is_ref_nocache Liquer.C01.nocache_world Liquer.C01.eval_is_ref Liquer.C01.evalText_is_ref Liquer.C01.empty_sound Liquer.C01.eval_is_ref_empty Liquer.C01.eval_is_ref_all Liquer.C01.eval_obs_is_ref Liquer.C01.ref_fuel_irrelevant Liquer.C01.ref_spelling_irrelevant
+-- STATEMENT-ONLY: Liquer.C01.canon_all_statement
